@@ -13,7 +13,7 @@ var RuleEdits = []string{
 	"pathParamNotRequired", "dupParamInline", "dupParamViaShared", "twoBodyParams", "bodyAndForm",
 	"paramArrayNoItems", "paramNestedArrayNoItems", "headerArrayNoItems", "schemaArrayNoItems",
 	"requiredUndefined", "requiredUndefinedWithSchemaAdditionalProperties", "unresolvableDefinitionRef", "unresolvableFileRefs", "unresolvableParameterRef", "unresolvableResponseRef",
-	"dupInheritedProperty", "circularAncestry", "overlappingPaths", "overlappingPaths3",
+	"dupInheritedProperty", "dupInheritedPropertyBesideAllOf", "circularAncestry", "overlappingPaths", "overlappingPaths3",
 	"invalidPatternParam", "invalidPatternNonStringParam", "unresolvableAllOfRef", "invalidPatternHeader", "invalidPatternSchema", "invalidPatternItems",
 	"missingPaths", "emptyPlaceholder",
 }
@@ -392,7 +392,7 @@ func ApplyRuleEdit(t *rapid.T, name string, doc map[string]any, info *SpecInfo) 
 		resps, _ := operationOf(doc, oi)["responses"].(map[string]any)
 		resps["500"] = map[string]any{"$ref": "#/responses/noSuchResponse"}
 		return true
-	case "dupInheritedProperty":
+	case "dupInheritedProperty", "dupInheritedPropertyBesideAllOf":
 		if len(info.AllOfChildren) == 0 {
 			return false
 		}
@@ -409,6 +409,10 @@ func ApplyRuleEdit(t *rapid.T, name string, doc map[string]any, info *SpecInfo) 
 			return false
 		}
 		own, _ := members[1].(map[string]any)
+		if name == "dupInheritedPropertyBesideAllOf" {
+			// the redeclaration sits beside allOf, in the inheriting definition itself
+			own = child
+		}
 		props, _ := own["properties"].(map[string]any)
 		if props == nil {
 			props = map[string]any{}
